@@ -325,9 +325,203 @@ func (s factSet) Rels() []rel {
 	for f := range s {
 		if r, ok := relsOf(f); ok {
 			out = append(out, r)
+			continue
+		}
+		out = append(out, predicateRels(f)...)
+	}
+	return out
+}
+
+// predicateRels: what a fact `g(x) == truth` says about x when g is an enum predicate — a pure
+// boolean function whose answer is decided by comparisons of one parameter with constants
+// (`func isComposite(t ValueTag) bool { return t == ValueArray || t == ValueObj }`): x differs from
+// every constant for which g answers the opposite, and equals the constant when it is the only
+// input giving this answer.
+func predicateRels(f fact) []rel {
+	cond, truth := f.cond, f.truth
+	for {
+		if u, ok := cond.(*ssa.UnOp); ok && u.Op == token.NOT {
+			cond, truth = u.X, !truth
+			continue
+		}
+		break
+	}
+	call, ok := cond.(*ssa.Call)
+	if !ok || call.Call.IsInvoke() {
+		return nil
+	}
+	g := call.Call.StaticCallee()
+	if g == nil || len(g.Blocks) == 0 || len(g.Params) != len(call.Call.Args) {
+		return nil
+	}
+	var out []rel
+	for j, a := range call.Call.Args {
+		ep := enumPredicateOf(g, j)
+		if ep == nil {
+			continue
+		}
+		same := 0
+		var sameC *ssa.Const
+		for i, cst := range ep.consts {
+			if ep.answers[i] != truth {
+				out = append(out, rel{a, cst, relNE})
+			} else {
+				same++
+				sameC = cst
+			}
+		}
+		if same == 1 && ep.other != truth {
+			out = append(out, rel{a, sameC, relEQ})
 		}
 	}
 	return out
+}
+
+type enumPredicate struct {
+	consts  []*ssa.Const
+	answers []bool
+	other   bool // the answer for a value equal to none of the constants
+}
+
+var enumPredCache = map[*ssa.Function]map[int]*enumPredicate{}
+
+func enumPredicateOf(g *ssa.Function, j int) *enumPredicate {
+	if m, ok := enumPredCache[g]; ok {
+		if r, ok := m[j]; ok {
+			return r
+		}
+	} else {
+		enumPredCache[g] = map[int]*enumPredicate{}
+	}
+	enumPredCache[g][j] = nil
+	res := g.Signature.Results()
+	if res.Len() != 1 || j >= len(g.Params) || len(g.Params) != 1 {
+		return nil
+	}
+	if b, ok := res.At(0).Type().Underlying().(*types.Basic); !ok || b.Kind() != types.Bool {
+		return nil
+	}
+	prm := g.Params[j]
+	if b, ok := prm.Type().Underlying().(*types.Basic); !ok || b.Info()&(types.IsInteger|types.IsString) == 0 {
+		return nil
+	}
+	pure := true
+	var consts []*ssa.Const
+	allInstrs(g, func(in ssa.Instruction) {
+		switch y := in.(type) {
+		case *ssa.If, *ssa.Jump, *ssa.Phi, *ssa.Return, *ssa.DebugRef:
+		case *ssa.UnOp:
+			if y.Op != token.NOT {
+				pure = false
+			}
+		case *ssa.BinOp:
+			if y.Op != token.EQL && y.Op != token.NEQ {
+				pure = false
+				return
+			}
+			var other ssa.Value
+			switch {
+			case y.X == ssa.Value(prm):
+				other = y.Y
+			case y.Y == ssa.Value(prm):
+				other = y.X
+			default:
+				pure = false
+				return
+			}
+			cst, ok := other.(*ssa.Const)
+			if !ok || cst.Value == nil {
+				pure = false
+				return
+			}
+			for _, k := range consts {
+				if constant.Compare(k.Value, token.EQL, cst.Value) {
+					return
+				}
+			}
+			consts = append(consts, cst)
+		default:
+			pure = false
+		}
+	})
+	if !pure || len(consts) == 0 || len(consts) > 32 {
+		return nil
+	}
+	ep := &enumPredicate{consts: consts}
+	run := func(cur *ssa.Const) (bool, bool) {
+		var evalB func(v ssa.Value, from *ssa.BasicBlock, d int) (bool, bool)
+		evalB = func(v ssa.Value, from *ssa.BasicBlock, d int) (bool, bool) {
+			if d > 8 {
+				return false, false
+			}
+			if b, ok := constBool(v); ok {
+				return b, true
+			}
+			switch y := v.(type) {
+			case *ssa.UnOp:
+				b, ok := evalB(y.X, from, d+1)
+				return !b, ok
+			case *ssa.Phi:
+				if from == nil {
+					return false, false
+				}
+				for i, pr := range y.Block().Preds {
+					if pr == from {
+						return evalB(y.Edges[i], nil, d+1)
+					}
+				}
+			case *ssa.BinOp:
+				other := y.Y
+				if y.Y == ssa.Value(prm) {
+					other = y.X
+				}
+				cst := other.(*ssa.Const)
+				eq := cur != nil && constant.Compare(cur.Value, token.EQL, cst.Value)
+				if y.Op == token.NEQ {
+					eq = !eq
+				}
+				return eq, true
+			}
+			return false, false
+		}
+		b := g.Blocks[0]
+		var from *ssa.BasicBlock
+		for steps := 0; steps < 200; steps++ {
+			switch y := b.Instrs[len(b.Instrs)-1].(type) {
+			case *ssa.Return:
+				return evalB(y.Results[0], from, 0)
+			case *ssa.Jump:
+				from, b = b, b.Succs[0]
+			case *ssa.If:
+				cv, ok := evalB(y.Cond, from, 0)
+				if !ok {
+					return false, false
+				}
+				if cv {
+					from, b = b, b.Succs[0]
+				} else {
+					from, b = b, b.Succs[1]
+				}
+			default:
+				return false, false
+			}
+		}
+		return false, false
+	}
+	for _, cst := range consts {
+		a, ok := run(cst)
+		if !ok {
+			return nil
+		}
+		ep.answers = append(ep.answers, a)
+	}
+	o, ok := run(nil)
+	if !ok {
+		return nil
+	}
+	ep.other = o
+	enumPredCache[g][j] = ep
+	return ep
 }
 
 func isNilConst(v ssa.Value) bool {
